@@ -37,7 +37,7 @@ func init() {
 		Run:            run,
 		Replay:         replay,
 		Finish:         finish,
-		QuickBudget:    260 * time.Second,
+		QuickBudget:    450 * time.Second,
 		ThoroughBudget: 14 * time.Minute,
 		Assumptions: []string{
 			"message text is not compared (it may embed map-ordered key lists and pointer-derived names); verdict, code, position and structured values are",
@@ -786,6 +786,7 @@ func mapOrder(c *ev.Ctx) {
 }
 
 func run(c *ev.Ctx) {
+	twins(c)
 	c.Part("stream merges", 0.1)
 	streamx.Run(c)
 	c.Part("construction paths", 0.15)
